@@ -60,6 +60,9 @@ structure Racy where
   field : Nat
   fnA : Nat
   fnB : Nat
+  /-- the finding is about `fnA` itself (it touches the field with no lock at all): the other side may be any function,
+  so that moving the locked side's code into a helper does not turn the recorded finding into a new one -/
+  anyB : Bool := false
   deriving DecidableEq
 
 /-- a conflicting pair that is ordered by something other than a mutex (reviewed, with the reason) -/
@@ -101,7 +104,8 @@ def share (a b : List Held) : Bool :=
   a.any (fun x => b.any (fun y => x.lock == y.lock && (x.excl || y.excl)))
 
 def isKnown (f a b : Nat) : Bool :=
-  T.knownRacy.any (fun k => k.field == f && ((k.fnA == a && k.fnB == b) || (k.fnA == b && k.fnB == a)))
+  T.knownRacy.any (fun k => k.field == f &&
+    ((k.fnA == a && (k.anyB || k.fnB == b)) || (k.fnA == b && (k.anyB || k.fnB == a))))
 
 /-- two rows conflict: same field, at least one write, their goroutine classes can run concurrently -/
 def conflict (r s : Access) : Bool :=
@@ -119,7 +123,9 @@ def rowOk (rows : List Access) (r : Access) : Bool := rows.all (pairOk T r)
 because the caller is itself such a helper), or from a constructor -/
 def callOk (e : CallerHolds) (c : Call) : Bool :=
   c.callee != e.fn || clsOf T c.caller == .init ||
-  (effHeld T c.caller c.held).any (fun h => h.lock == canon T e.lock && (h.excl || !e.excl))
+  -- a `go` / `defer` call does not run where it is written: what is held there justifies nothing
+  (!c.async &&
+   (effHeld T c.caller c.held).any (fun h => h.lock == canon T e.lock && (h.excl || !e.excl)))
 
 def callerHoldsOk (calls : List Call) (e : CallerHolds) : Bool :=
   calls.any (·.callee == e.fn) && calls.all (callOk T e)
